@@ -96,6 +96,9 @@ DropW(w) ==
          hit(x) == IF Mut = "dropall" THEN (Dir(x) = d /\ op[x] = "flight") ELSE (x = w /\ inflight)
      IN
      /\ Eager => ~(inflight /\ Ready(d))       \* race between data and cancellation: not replayed
+     \* io_uring: after the peer's half-close (EPOLLRDHUP) a write that waits for buffer space is retried and then
+     \* handed to a kernel worker thread that blocks in send; its cancellation is only eventually effective
+     /\ Eager => ~(inflight /\ d = "w" /\ shut)
      /\ fst' = [fst EXCEPT ![w] = "none"]
      /\ op' = [x \in W |-> IF hit(x) \/ x = w THEN "none" ELSE op[x]]
      /\ orph' = [orph EXCEPT ![d] = @ + Cardinality({x \in W : hit(x)})]
